@@ -142,18 +142,17 @@ inductive Outcome (ε α : Type) where
   | panic : Outcome ε α
 deriving Repr
 
-/-- One header line (without having been recognised as the blank line): the
-`safe_assert(len >= 2)`, the `line[0..len-2]` slice (a panic off a char boundary), `splitn(2, ':')`
-and `trim_start`. -/
+/-- One header line (not the blank line): UTF-8 check, the line must end in CRLF (after the D8
+repair: `strip_suffix("\r\n")` instead of slicing two bytes off), `splitn(2, ':')`, `trim_start`. -/
 def parseHeaderLine (line : Bytes) : Outcome ReqErr Header :=
   if !utf8Valid line then .err .request
-  else if line.length < 2 then .err .request
-  else if !isCharBoundary line (line.length - 2) then .panic
   else
-    let body := line.take (line.length - 2)
-    match splitOnce 58 body with
-    | (_, none) => .err .request
-    | (name, some value) => .ok ⟨HName.ofName name, trimStart value⟩
+    match stripCrlf line with
+    | none => .err .request
+    | some body =>
+      match splitOnce 58 body with
+      | (_, none) => .err .request
+      | (name, some value) => .ok ⟨HName.ofName name, trimStart value⟩
 
 /-- The header loop of `from_stream_inner`. -/
 def parseHeaders {σ : Type} (S : Source σ) : Nat → σ → Headers → Outcome ReqErr (Headers × σ)
